@@ -196,6 +196,9 @@ def build_model(pid):
         return exe
 
 
+_XCHECK = {}
+
+
 def run_model(exe, lines):
     p = subprocess.run(["bash", "-c", "ulimit -s unlimited 2>/dev/null; exec " + exe], input="\n".join(lines) + "\n",
                        stdout=subprocess.PIPE, stderr=subprocess.PIPE, text=True)
@@ -204,6 +207,14 @@ def run_model(exe, lines):
         out.pop()
     if len(out) != len(lines):
         raise SystemExit("model driver returned %d lines for %d cases (rc=%s): %s" % (len(out), len(lines), p.returncode, p.stderr[-500:]))
+    # remember a few (model input, model answer) pairs: Check.finish() re-evaluates them inside Coq with vm_compute,
+    # which cross-checks extraction + the OCaml driver against the kernel's own evaluation of the same run_case
+    pid = os.path.basename(os.path.dirname(exe))
+    mem = _XCHECK.setdefault(pid, [])
+    n = len(lines)
+    for i in sorted(set([0, n // 2, n - 1])) if n and len(mem) < 36 else []:
+        if len(lines[i]) < 1500 and len(out[i]) < 4000:
+            mem.append((lines[i], out[i]))
     return out
 
 
@@ -392,7 +403,7 @@ class Check:
 
     def extraction_crosscheck(self):
         """Evaluate the remembered cases with vm_compute inside Coq and compare with what the extracted model printed."""
-        pairs = getattr(self, "_xcheck", [])
+        pairs = _XCHECK.get(self.pid, [])
         if not pairs or not os.path.exists(os.path.join(COQ, "Model", self.pid + ".vo")):
             return
         def zlit(t):
@@ -481,15 +492,6 @@ def fmt_bytes(toks):
 
 def correspond(c, label, cases, impl, model, describe=None, limit=5):
     """Record implementation/model disagreements as a broken correspondence (not yet a violation)."""
-    # remember a few (case, model answer) pairs: finish() re-evaluates them inside Coq with vm_compute, which
-    # cross-checks extraction + the OCaml driver against the kernel's own evaluation of the same run_case
-    if not hasattr(c, "_xcheck"):
-        c._xcheck = []
-    if len(c._xcheck) < 36:
-        n = len(cases)
-        for i in sorted(set([0, n // 2, n - 1])) if n else []:
-            if len(cases[i]) < 1500 and len(model[i]) < 4000:
-                c._xcheck.append((cases[i], model[i]))
     bad = diff_lines(cases, impl, model)
     if bad:
         ex = [{"case": cases[i], "impl": impl[i], "model": model[i], "note": describe(cases[i]) if describe else ""} for i in bad[:limit]]
